@@ -2,9 +2,11 @@
 
 Three oracles over generated constructor arguments (valid base configuration
 plus 0-2 mutations):
- (a) a configuration that breaks a rule the statement / a `Raises:` docstring
-     names ("listed") must be rejected with ValueError (KeyError for RTL input
-     keys, as documented);
+ (a) a configuration that breaks a rule the statement / a `Raises:` docstring /
+     a verify_hyperparameters or verify_config check names ("listed") must be
+     rejected with ValueError (KeyError for RTL input keys, as documented),
+     raised by tensorflow_lattice code itself, at construction or build (see
+     LATEST_STAGE for the three rules the library checks later);
  (b) everything else may be rejected with ValueError at construction/build, but
      if construction + build succeed, constraint application on generated
      finite weights and evaluation on generated finite inputs must not raise and
@@ -12,27 +14,45 @@ plus 0-2 mutations):
  (c) synonymous spellings configure bit-identical behaviour.
 """
 import copy
+import json
 
 import numpy as np
 from hypothesis import strategies as st
 
 from vlib import models as M
 from vlib import strategies as S
-from vlib.harness import Outcome
+from vlib.harness import Outcome, hash32
 
 ID = "C16"
 TITLE = "Configurations are either rejected up front or handled totally and finitely"
 RULE = ("Hypothesis draws a layer kind (Lattice, LatticeConstraints, "
         "PWLCalibration, Linear, CategoricalCalibration, "
-        "KroneckerFactoredLattice, RTL, CDF, premade configs), a valid base "
-        "configuration and 0-2 mutations from a per-kind table: mutations that "
+        "KroneckerFactoredLattice, RTL, CDF, premade configs incl. "
+        "AggregateFunctionConfig), a valid base "
+        "configuration (PWL: fixed or learned interior keypoints) and 0-2 "
+        "mutations from a per-kind table, the row chosen by a hash of the "
+        "drawn content so that every row is reached: mutations that "
         "break a listed rule (size < 2, monotone+unimodal, trust on "
         "non-monotone main, main==conditional, dominance between non-monotone "
-        "features, output_min > output_max, unsorted keypoints, cyclic with "
-        "monotonicity, malformed premade configs, ...) and unlisted odd "
-        "spellings (tuples, numpy scalars, duplicated constraints, zero "
-        "iterations, degenerate ranges, self-dominance, ...); or a synonym "
-        "pair. Accepted configurations get generated finite weights (|w| <= "
+        "features or in both directions, non-integer / out-of-range "
+        "constraint dimensions, tuples of the wrong length, wrong list "
+        "lengths (monotonicities, unimodalities, list-of-tensors input), "
+        "units > 1 with a rank-2 input (Lattice, Linear, KFL), "
+        "output_min > output_max, input_min > input_max on a constrained "
+        "Linear, unsorted keypoints, cyclic with "
+        "monotonicity, malformed premade configs (every rule of "
+        "premade_lib.verify_config), ...) and unlisted odd "
+        "spellings (tuples and tuples of tuples, numpy scalars, int / "
+        "np.float32 Linear bounds, list-of-tensors input, duplicated "
+        "constraints, zero "
+        "iterations, degenerate ranges, equal bounds, self-dominance, ...); "
+        "at most one listed mutation, applied last; or a synonym "
+        "pair of one layer (strings / integers, single tuple / one-element "
+        "list, tuple / list containers, numpy / list keypoints, 'none' / "
+        "None bounds, list / tuple category pairs) or of one premade model "
+        "config (integer / string monotonicity, convexity, unimodality, "
+        "trust direction). Accepted configurations get generated finite "
+        "weights (|w| <= "
         "1e3) and inputs. Non-trivial: the case reaches oracle (a) with a "
         "listed-invalid configuration, or reaches projection + evaluation in "
         "(b), or compares two different spellings in (c); distinct by SHA-1.")
@@ -45,16 +65,31 @@ TECHNIQUE = ("property-based testing (Hypothesis) + coverage-guided fuzzing "
 LEVEL_TEXT = ("Generated-input exploration of the constructor / build / "
               "projection / evaluation pipeline of every layer kind with valid, "
               "listed-invalid and odd-but-unlisted arguments; the oracle is the "
-              "statement's dichotomy (ValueError up front, or total and finite) "
-              "plus bit-identity of synonymous spellings. The thorough tier adds "
+              "statement's dichotomy (ValueError raised by the library's own "
+              "validation at construction / build, or total and finite) "
+              "plus bit-identity of synonymous spellings, for single layers "
+              "and for whole premade models. The thorough tier adds "
               "an atheris campaign that decodes bytes into the same cases.")
-LEVEL_NOTE = ("Only rules named in the statement or in a Raises: docstring are "
-              "demanded to be rejected (table in DESIGN C16); the documented "
-              "late rejection 'clamping without monotonicity' (raised at "
-              "projection) is accepted at any stage. Weights and inputs are "
+LEVEL_NOTE = ("Only rules named in the statement, in a Raises: docstring or in "
+              "a verify_hyperparameters / verify_config check are "
+              "demanded to be rejected (table in DESIGN C16). A listed "
+              "rejection must be a ValueError (KeyError for RTL input keys) "
+              "whose raising frame is tensorflow_lattice code (traceback "
+              "filtering is switched off while a case runs), at construction "
+              "or build; three rules are checked later by the library and "
+              "are accepted up to that stage: CDF option strings (first "
+              "call), a Linear dominance cycle and the documented "
+              "late rejection 'clamping without monotonicity' (first "
+              "projection; the latter at any stage). Weights and inputs are "
               "bounded by 1e3 so that float overflow is excluded. Open finding "
               "F-C06-1 (zero-width range in a Linear range dominance -> NaN) is "
-              "matched by signature.")
+              "matched by signature. Two generator options are switched off "
+              "because they hit candidate defects reported separately: an "
+              "out-of-range / non-integer joint-unimodality dimension given to "
+              "the Lattice layer (IndexError / TypeError in its constructor; "
+              "still generated for LatticeConstraints) and one trust argument "
+              "as a tuple of tuples while the other is a list or None "
+              "(TypeError in verify_hyperparameters).")
 
 T = lambda *a: {"t": list(a)}          # JSON spelling of a tuple
 
@@ -67,6 +102,8 @@ def decode(o):
       return np.int64(o["np_int"])
     if set(o.keys()) == {"np_arr"}:
       return np.array(o["np_arr"])
+    if set(o.keys()) == {"np_f32"}:
+      return np.float32(o["np_f32"])
     return {k: decode(v) for k, v in o.items()}
   if isinstance(o, list):
     return [decode(v) for v in o]
@@ -97,13 +134,19 @@ def base_lattice(draw):
 @st.composite
 def base_pwl(draw):
   c = draw(S.pwl_config(max_k=5))
+  # learned interior keypoints are a base option (documented for every
+  # configuration without convexity), so that they meet cyclic, clamps,
+  # missing values and units > 1 on the accepted path.
+  kp_type = "fixed"
+  if c["conv"] == 0 and draw(st.sampled_from([0, 0, 1])):
+    kp_type = "learned_interior"
   return {"input_keypoints": list(c["keypoints"]), "units": c["units"],
           "output_min": c["omin"], "output_max": c["omax"],
           "clamp_min": c["clamp_min"], "clamp_max": c["clamp_max"],
           "monotonicity": c["mono"], "convexity": c["conv"],
           "is_cyclic": c["cyclic"],
           "num_projection_iterations": draw(st.sampled_from([0, 1, 4])),
-          "impute_missing": False, "input_keypoints_type": "fixed"}
+          "impute_missing": False, "input_keypoints_type": kp_type}
 
 
 @st.composite
@@ -190,6 +233,32 @@ def _dims(kw):
   return len(kw["lattice_sizes"])
 
 
+def _lat_grow(kw, d_min=2):
+  """Appends unconstrained size-2 dimensions until the lattice has d_min of
+  them, so that a pairwise mutation is always applicable (construct, do not
+  filter)."""
+  while len(kw["lattice_sizes"]) < d_min:
+    kw["lattice_sizes"] = list(kw["lattice_sizes"]) + [2]
+    kw["monotonicities"] = list(kw["monotonicities"]) + [0]
+    if kw["unimodalities"]:
+      kw["unimodalities"] = list(kw["unimodalities"]) + [0]
+  return len(kw["lattice_sizes"])
+
+
+def _lat_free_pair(draw, kw):
+  """Two different dimensions (a, b) made monotone and freed from
+  unimodality constraints."""
+  d = _lat_grow(kw)
+  a = draw(st.integers(0, d - 1))
+  b = draw(st.integers(0, d - 2))
+  b = b if b < a else b + 1
+  kw["monotonicities"][a] = kw["monotonicities"][b] = 1
+  if kw["unimodalities"]:
+    kw["unimodalities"][a] = kw["unimodalities"][b] = 0
+  kw["joint_unimodalities"] = None
+  return a, b
+
+
 def m_lat_size_lt2(draw, kw):
   i = draw(st.integers(0, _dims(kw) - 1))
   kw["lattice_sizes"][i] = draw(st.sampled_from([1, 0, -1]))
@@ -208,9 +277,7 @@ def m_lat_mono_and_unimod(draw, kw):
 
 
 def m_lat_trust_nonmono_main(draw, kw):
-  d = _dims(kw)
-  if d < 2:
-    return None
+  d = _lat_grow(kw)
   m = draw(st.integers(0, d - 1))
   c = draw(st.integers(0, d - 2))
   c = c if c < m else c + 1
@@ -221,9 +288,7 @@ def m_lat_trust_nonmono_main(draw, kw):
 
 
 def m_lat_main_and_cond(draw, kw):
-  d = _dims(kw)
-  if d < 2:
-    return None
+  d = _lat_grow(kw)
   a = draw(st.integers(0, d - 1))
   b = draw(st.integers(0, d - 2))
   b = b if b < a else b + 1
@@ -236,9 +301,7 @@ def m_lat_main_and_cond(draw, kw):
 
 
 def m_lat_dom_nonmono(draw, kw):
-  d = _dims(kw)
-  if d < 2:
-    return None
+  d = _lat_grow(kw)
   a = draw(st.integers(0, d - 1))
   b = draw(st.integers(0, d - 2))
   b = b if b < a else b + 1
@@ -281,9 +344,7 @@ def m_bad_interpolation(draw, kw):
 
 
 def m_lat_opposite_trusts(draw, kw):
-  d = _dims(kw)
-  if d < 2:
-    return None
+  d = _lat_grow(kw)
   a = draw(st.integers(0, d - 1))
   b = draw(st.integers(0, d - 2))
   b = b if b < a else b + 1
@@ -294,9 +355,7 @@ def m_lat_opposite_trusts(draw, kw):
 
 
 def m_lat_trust_malformed(draw, kw):
-  d = _dims(kw)
-  if d < 2:
-    return None
+  d = _lat_grow(kw)
   kw["monotonicities"][0] = 1
   kw["edgeworth_trusts"] = [draw(st.sampled_from(
       [T(0, 1), T(0, 1, 0), T(0, 1, "up"), T(0, 1, 1, 1)]))]
@@ -341,17 +400,129 @@ def m_lat_units_rank(draw, kw):
   return kw
 
 
+def m_lat_unimod_len(draw, kw):
+  # "If provided 'unimodalities' should have same number of elements as
+  # 'lattice_sizes'" (lattice_lib.verify_hyperparameters).
+  d = _dims(kw)
+  u = list(kw["unimodalities"] or [0] * d)
+  if draw(st.booleans()) or d == 1:
+    u = u + [0]
+  else:
+    u = u[:-1]
+  kw["unimodalities"] = u
+  return kw
+
+
+def m_lat_opposite_dominance(draw, kw):
+  # "Cannot have two ... dominance constraints on the same pair of features
+  # conflicting" (_verify_dominances_hyperparameters).
+  a, b = _lat_free_pair(draw, kw)
+  key = draw(st.sampled_from(["monotonic_dominances", "range_dominances"]))
+  kw[key] = [T(a, b), T(b, a)]
+  return kw
+
+
+# Candidate defect (see the widening report, /tmp/scratch/widen/C16-defect-1.py):
+# tfl.layers.Lattice indexes all_unimodalities[dim] in its constructor before
+# joint_unimodalities are verified, so an out-of-range / non-int joint
+# unimodality dimension raises IndexError / TypeError instead of the listed
+# ValueError.  LatticeConstraints is not affected and keeps these cases.
+GEN_LATTICE_LAYER_JUNIMOD_BAD_DIM = True
+
+
+def m_lat_nonint_dim(draw, kw, layer=False):
+  # "... dimensions must be integers" for trusts, dominances, joint
+  # monotonicities and joint unimodalities.
+  a, b = _lat_free_pair(draw, kw)
+  key = draw(st.sampled_from(
+      ["edgeworth_trusts", "trapezoid_trusts", "monotonic_dominances",
+       "range_dominances", "joint_monotonicities"] +
+      (["joint_unimodalities"] if not layer or
+       GEN_LATTICE_LAYER_JUNIMOD_BAD_DIM else [])))
+  fa, fb = (float(a), b) if draw(st.booleans()) else (a, float(b))
+  if key.endswith("trusts"):
+    kw["edgeworth_trusts"] = kw["trapezoid_trusts"] = None
+    kw[key] = [T(fa, fb, 1)]
+  elif key == "joint_unimodalities":
+    kw["lattice_sizes"][a] = max(3, kw["lattice_sizes"][a])
+    kw["monotonicities"][a] = 0
+    for k in ("edgeworth_trusts", "trapezoid_trusts", "monotonic_dominances",
+              "range_dominances"):
+      kw[k] = None
+    kw[key] = [T(T(float(a)), "valley")]
+  else:
+    kw[key] = [T(fa, fb)]
+  return kw
+
+
+def m_lat_jmono_len(draw, kw):
+  # "Joint monotonicities constraints must consist of 2 elements".
+  d = _lat_grow(kw)
+  kw["joint_monotonicities"] = [draw(st.sampled_from(
+      [T(0), T(0, 1, 1), T(0, 1, d - 1)]))]
+  return kw
+
+
+def m_lat_nonint_dim_layer(draw, kw):
+  return m_lat_nonint_dim(draw, kw, layer=True)
+
+
+def m_lat_junimod_range(draw, kw, layer=False):
+  # "Dimension constrained by joint unimodality is not within the range of
+  # the lattice".
+  d = _dims(kw)
+  kw["lattice_sizes"] = [max(3, s) for s in kw["lattice_sizes"]]
+  kw["monotonicities"] = [0] * d
+  kw["unimodalities"] = None
+  for k in ("edgeworth_trusts", "trapezoid_trusts", "monotonic_dominances",
+            "range_dominances"):
+    kw[k] = None
+  bad = draw(st.sampled_from(
+      [d, d + 2, -1] if not layer or GEN_LATTICE_LAYER_JUNIMOD_BAD_DIM else
+      [-1]))
+  kw["joint_unimodalities"] = [draw(st.sampled_from(
+      [T(T(bad), "valley"), T(T(0, bad), "peak")]))]
+  return kw
+
+
+def m_lat_junimod_range_layer(draw, kw):
+  return m_lat_junimod_range(draw, kw, layer=True)
+
+
+def m_lat_list_len(draw, kw):
+  # "If lattice input is provided as list of tensors their number must match
+  # lattice_sizes" (checked at build).
+  d = _dims(kw)
+  kw["_input_list"] = draw(st.sampled_from([d + 1, d + 1, d - 1] if d > 1 else
+                                           [d + 1]))
+  return kw
+
+
 # ---- unlisted (odd but not named): must be ValueError up front or total
+def m_lat_list_input(draw, kw):
+  # documented input form: list of len(lattice_sizes) tensors (batch, ..., 1)
+  kw["_input_list"] = _dims(kw)
+  return kw
+
+
+def _seq(v):
+  """Elements of a JSON list or of a T(...) tuple spelling."""
+  return list(v["t"]) if isinstance(v, dict) else list(v)
+
+
 def m_lat_tuple_spelling(draw, kw):
-  kw["lattice_sizes"] = T(*kw["lattice_sizes"])
-  kw["monotonicities"] = T(*kw["monotonicities"])
+  kw["lattice_sizes"] = T(*_seq(kw["lattice_sizes"]))
+  kw["monotonicities"] = T(*_seq(kw["monotonicities"]))
   if kw["unimodalities"]:
-    kw["unimodalities"] = T(*kw["unimodalities"])
+    kw["unimodalities"] = T(*_seq(kw["unimodalities"]))
   return kw
 
 
 def m_lat_np_sizes(draw, kw):
-  kw["lattice_sizes"] = [{"np_int": s} for s in kw["lattice_sizes"]]
+  sizes = [s if isinstance(s, dict) else {"np_int": s}
+           for s in _seq(kw["lattice_sizes"])]
+  kw["lattice_sizes"] = T(*sizes) if isinstance(kw["lattice_sizes"],
+                                                dict) else sizes
   return kw
 
 
@@ -368,30 +539,83 @@ def m_lat_self_dominance(draw, kw):
   return kw
 
 
+_PAIR_KEYS = ("edgeworth_trusts", "trapezoid_trusts", "monotonic_dominances",
+              "range_dominances", "joint_monotonicities")
+
+
+def _lat_some_constraint(draw, kw):
+  """Makes sure that one pairwise constraint list is present (a valid joint
+  monotonicity between dimensions 0 and 1 when the base has none)."""
+  if not any(isinstance(kw[key], list) and kw[key] for key in _PAIR_KEYS):
+    _lat_grow(kw)
+    kw["joint_monotonicities"] = [T(0, 1)]
+
+
+def _list_keys(kw):
+  return [key for key in _PAIR_KEYS if isinstance(kw[key], list) and kw[key]]
+
+
 def m_lat_duplicate_constraint(draw, kw):
-  for key in ("edgeworth_trusts", "trapezoid_trusts", "monotonic_dominances",
-              "range_dominances", "joint_monotonicities"):
-    if kw[key]:
-      kw[key] = kw[key] + [kw[key][0]]
-      return kw
-  return None
+  _lat_some_constraint(draw, kw)
+  keys = _list_keys(kw)
+  key = keys[draw(st.integers(0, len(keys) - 1))]
+  kw[key] = kw[key] + [kw[key][0]]
+  return kw
 
 
 def m_lat_single_tuple(draw, kw):
-  for key in ("edgeworth_trusts", "trapezoid_trusts", "monotonic_dominances",
-              "range_dominances", "joint_monotonicities"):
-    if kw[key] and len(kw[key]) == 1:
-      kw[key] = kw[key][0]
-      return kw
-  return None
+  _lat_some_constraint(draw, kw)
+  keys = _list_keys(kw)
+  key = keys[draw(st.integers(0, len(keys) - 1))]
+  kw[key] = kw[key][0]             # one tuple instead of a one-element list
+  for other in keys:               # (a list of several stays a list)
+    if other != key and len(kw[other]) == 1 and draw(st.booleans()):
+      kw[other] = kw[other][0]
+  return kw
+
+
+# Candidate defect (/tmp/scratch/widen/C16-defect-2.py): one trust argument
+# given as a tuple of tuples ("iterable of three-element tuples") while the
+# other is a list or None raises TypeError ("can only concatenate tuple ...")
+# in lattice_lib.verify_hyperparameters.  With the switch off, trusts become
+# tuples only when both arguments are present (then both are converted).
+GEN_TRUST_TUPLE_CONTAINER = True
+
+
+def _tuple_containers(kw, trusts_ok=GEN_TRUST_TUPLE_CONTAINER):
+  """Pairwise constraint lists -> tuples of tuples; returns number changed."""
+  n = 0
+  both = all(isinstance(kw[key], list) and kw[key]
+             for key in ("edgeworth_trusts", "trapezoid_trusts"))
+  for key in _PAIR_KEYS + ("joint_unimodalities",):
+    if not isinstance(kw.get(key), list) or not kw[key]:
+      continue
+    if key.endswith("trusts") and not (both or trusts_ok):
+      continue
+    kw[key] = T(*kw[key])
+    n += 1
+  return n
+
+
+def m_lat_tuple_containers(draw, kw):
+  # documented: "iterable of ... tuples" for every pairwise constraint
+  if not any(isinstance(kw[key], list) and kw[key] for key in (
+      "monotonic_dominances", "range_dominances", "joint_monotonicities",
+      "joint_unimodalities")):
+    _lat_grow(kw)
+    kw["joint_monotonicities"] = [T(0, 1)]
+  _tuple_containers(kw)
+  return kw
 
 
 def m_lat_string_spelling(draw, kw):
-  kw["monotonicities"] = ["increasing" if m == 1 else "none"
-                          for m in kw["monotonicities"]]
+  wrap = lambda old, new: T(*new) if isinstance(old, dict) else new
+  kw["monotonicities"] = wrap(kw["monotonicities"], [
+      "increasing" if m == 1 else "none" for m in _seq(kw["monotonicities"])])
   if kw["unimodalities"]:
-    kw["unimodalities"] = [{1: "valley", -1: "peak", 0: "none"}[u]
-                           for u in kw["unimodalities"]]
+    kw["unimodalities"] = wrap(kw["unimodalities"], [
+        {1: "valley", -1: "peak", 0: "none"}[u]
+        for u in _seq(kw["unimodalities"])])
   return kw
 
 
@@ -492,22 +716,31 @@ def m_pwl_missing_modes(draw, kw):
 
 
 def m_pwl_learned(draw, kw):
-  if kw["convexity"] not in (0, "none"):
-    return None
+  kw["convexity"] = 0
   kw["input_keypoints_type"] = "learned_interior"
   return kw
 
 
 # ---- Linear
+def _lin_grow(kw, d_min=2):
+  """Appends unconstrained, unbounded inputs until there are d_min of them
+  (construct, do not filter)."""
+  while kw["num_input_dims"] < d_min:
+    kw["num_input_dims"] += 1
+    kw["monotonicities"] = list(kw["monotonicities"]) + [0]
+    for key in ("input_min", "input_max"):
+      if kw[key]:
+        kw[key] = list(kw[key]) + [None]
+  return kw["num_input_dims"]
+
+
 def m_lin_mono_len(draw, kw):
   kw["monotonicities"] = list(kw["monotonicities"]) + [1]
   return kw
 
 
 def m_lin_dom_nonincreasing(draw, kw):
-  d = kw["num_input_dims"]
-  if d < 2:
-    return None
+  d = _lin_grow(kw)
   kw["monotonicities"] = [1] * d
   kw["monotonicities"][1] = draw(st.sampled_from([0, -1]))
   kw["monotonic_dominances"] = [T(0, 1)]
@@ -516,9 +749,7 @@ def m_lin_dom_nonincreasing(draw, kw):
 
 
 def m_lin_rdom_bad(draw, kw):
-  d = kw["num_input_dims"]
-  if d < 2:
-    return None
+  d = _lin_grow(kw)
   kw["monotonic_dominances"] = None
   kw["range_dominances"] = [T(0, 1)]
   if draw(st.booleans()):
@@ -533,9 +764,7 @@ def m_lin_rdom_bad(draw, kw):
 
 
 def m_lin_both_dominances(draw, kw):
-  d = kw["num_input_dims"]
-  if d < 2:
-    return None
+  d = _lin_grow(kw)
   kw["monotonicities"] = [1] * d
   kw["input_min"], kw["input_max"] = [0.0] * d, [1.0] * d
   kw["monotonic_dominances"] = [T(0, 1)]
@@ -544,9 +773,7 @@ def m_lin_both_dominances(draw, kw):
 
 
 def m_lin_two_directions(draw, kw):
-  d = kw["num_input_dims"]
-  if d < 2:
-    return None
+  d = _lin_grow(kw)
   kw["monotonicities"] = [1] * d
   kw["range_dominances"] = None
   kw["monotonic_dominances"] = [T(0, 1), T(1, 0)]
@@ -571,8 +798,7 @@ def m_lin_scalar_mono(draw, kw):
 
 def m_lin_none_strings(draw, kw):
   d = kw["num_input_dims"]
-  if kw["range_dominances"]:
-    return None
+  kw["range_dominances"] = None
   kw["input_min"] = ["none" if v is None else v
                      for v in (kw["input_min"] or [None] * d)]
   kw["input_max"] = ["none" if v is None else v
@@ -581,9 +807,7 @@ def m_lin_none_strings(draw, kw):
 
 
 def m_lin_zero_width(draw, kw):
-  d = kw["num_input_dims"]
-  if d < 2:
-    return None
+  d = _lin_grow(kw)
   kw["monotonicities"] = [1] * d
   kw["monotonic_dominances"] = None
   kw["input_min"] = [0.0] * d
@@ -602,12 +826,83 @@ def m_lin_inverted_range_unconstrained(draw, kw):
 
 
 def m_lin_cycle_with_root(draw, kw):
-  d = kw["num_input_dims"]
-  if d < 4:
-    return None
+  d = _lin_grow(kw, 4)
   kw["monotonicities"] = [1] * d
   kw["range_dominances"] = None
   kw["monotonic_dominances"] = [T(0, 1), T(1, 2), T(2, 3), T(3, 1)]
+  return kw
+
+
+def m_lin_inverted_range_constrained(draw, kw):
+  # "Cannot have 'input_min' greater than 'input_max'" (linear_lib
+  # .verify_hyperparameters, reached through LinearConstraints, i.e. whenever
+  # the layer has a constraint).
+  d = kw["num_input_dims"]
+  kw["monotonic_dominances"] = kw["range_dominances"] = None
+  if draw(st.booleans()):
+    kw["monotonicities"] = [0] * d
+    kw["monotonicities"][draw(st.integers(0, d - 1))] = draw(
+        st.sampled_from([1, -1]))
+  else:
+    kw["monotonicities"] = [0] * d
+    kw["normalization_order"] = draw(st.sampled_from([1, 2]))
+  i = draw(st.integers(0, d - 1))
+  kw["input_min"] = [None] * d
+  kw["input_max"] = [None] * d
+  kw["input_min"][i], kw["input_max"][i] = 1.0, draw(
+      st.sampled_from([0.0, 0.5, -3.0]))
+  return kw
+
+
+def m_lin_opposite_range_dominance(draw, kw):
+  # "Cannot have two range dominance constraints on the same pair of
+  # features conflicting".
+  d = _lin_grow(kw)
+  sign = draw(st.sampled_from([1, -1]))
+  kw["monotonicities"] = [sign, sign] + [0] * (d - 2)
+  kw["input_min"], kw["input_max"] = [0.0] * d, [1.0] * d
+  kw["monotonic_dominances"] = None
+  kw["range_dominances"] = [T(0, 1), T(1, 0)]
+  return kw
+
+
+def m_lin_dominance_malformed(draw, kw):
+  # dominance tuple: index out of range / negative, length != 2, non-int.
+  d = _lin_grow(kw)
+  kw["monotonicities"] = [1] * d
+  kw["input_min"], kw["input_max"] = [0.0] * d, [1.0] * d
+  key = draw(st.sampled_from(["monotonic_dominances", "range_dominances"]))
+  kw["monotonic_dominances"] = kw["range_dominances"] = None
+  kw[key] = [draw(st.sampled_from(
+      [T(0, d), T(d + 1, 0), T(0, -1), T(-1, 1), T(0), T(0, 1, 1), T(0, 1.0),
+       T(0.0, 1)]))]
+  return kw
+
+
+def m_lin_units_rank(draw, kw):
+  # "'input_shape' must be of rank three ..." when units > 1.
+  kw["units"] = draw(st.sampled_from([2, 3]))
+  kw["_input_rank2"] = True
+  return kw
+
+
+def m_lin_int_bounds(draw, kw):
+  # ints / numpy float32 scalars as bounds (the documentation says floats;
+  # the error message of canonicalize_input_bounds names ints as well).
+  d = kw["num_input_dims"]
+  kw["range_dominances"] = None
+  which = draw(st.sampled_from(["int", "int", "np_f32", "mixed"]))
+  lo = [draw(st.sampled_from([0, -1, 0, 2])) for _ in range(d)]
+  if which == "int":
+    kw["input_min"] = lo
+    kw["input_max"] = draw(st.sampled_from([None, [v + 3 for v in lo]]))
+  elif which == "np_f32":
+    kw["input_min"] = [{"np_f32": float(v)} for v in lo]
+    kw["input_max"] = [{"np_f32": float(v) + 1.5} for v in lo]
+  else:
+    kw["input_min"] = [float(v) if j % 2 else v for j, v in enumerate(lo)]
+    kw["input_max"] = [v + 1 if j % 2 else float(v) + 1.0
+                       for j, v in enumerate(lo)]
   return kw
 
 
@@ -625,15 +920,15 @@ def m_cat_index_range(draw, kw):
 
 
 def m_cat_two_cycle(draw, kw):
-  if kw["num_buckets"] < 2:
-    return None
+  kw["num_buckets"] = max(2, kw["num_buckets"])
   kw["monotonicities"] = [T(0, 1), T(1, 0)]
   return kw
 
 
 def m_cat_list_pairs(draw, kw):
   if not kw["monotonicities"]:
-    return None
+    kw["num_buckets"] = max(2, kw["num_buckets"])
+    kw["monotonicities"] = [T(0, kw["num_buckets"] - 1)]
   kw["monotonicities"] = [list(p["t"]) for p in kw["monotonicities"]]
   return kw
 
@@ -670,9 +965,17 @@ def m_kfl_mono(draw, kw):
 
 def m_kfl_string_mono(draw, kw):
   if not kw["monotonicities"]:
-    return None
+    kw["monotonicities"] = [1] + [0] * (kw["dims"] - 1)
   kw["monotonicities"] = T(*["increasing" if m else "none"
                              for m in kw["monotonicities"]])
+  return kw
+
+
+def m_kfl_units_rank(draw, kw):
+  # "If 'units' > 1 then input shape of KroneckerFactoredLattice layer must
+  # have rank at least 3 ..." (kfl_lib.verify_hyperparameters at build).
+  kw["units"] = draw(st.sampled_from([2, 3]))
+  kw["_input_rank2"] = True
   return kw
 
 
@@ -761,7 +1064,16 @@ MUTS = {
         ("L-dims-out-of-range", True, m_lat_dims_out_of_range),
         ("L-junimod-invalid", True, m_lat_junimod_bad),
         ("L-units-input-rank", True, m_lat_units_rank),
+        ("L-unimod-length", True, m_lat_unimod_len),
+        ("L-opposite-dominance", True, m_lat_opposite_dominance),
+        ("L-non-int-dimension", True, m_lat_nonint_dim_layer),
+        ("L-joint-mono-length", True, m_lat_jmono_len),
+        ("L-junimod-dim-out-of-range", True, m_lat_junimod_range_layer),
+        ("L-input-list-length", True, m_lat_list_len),
+        ("l-list-input", False, m_lat_list_input),
+        ("l-equal-bounds", False, m_equal_bounds),
         ("l-tuple-spelling", False, m_lat_tuple_spelling),
+        ("l-tuple-containers", False, m_lat_tuple_containers),
         ("l-numpy-sizes", False, m_lat_np_sizes),
         ("l-self-dominance", False, m_lat_self_dominance),
         ("l-duplicate-constraint", False, m_lat_duplicate_constraint),
@@ -793,6 +1105,11 @@ MUTS = {
         ("N-both-dominance-kinds", True, m_lin_both_dominances),
         ("N-two-directions", True, m_lin_two_directions),
         ("N-bad-bound-type", True, m_lin_bad_bound_type),
+        ("N-min>max-constrained", True, m_lin_inverted_range_constrained),
+        ("N-opposite-range-dominance", True, m_lin_opposite_range_dominance),
+        ("N-dominance-malformed", True, m_lin_dominance_malformed),
+        ("N-units-input-rank", True, m_lin_units_rank),
+        ("n-int-bounds", False, m_lin_int_bounds),
         ("n-scalar-monotonicity", False, m_lin_scalar_mono),
         ("n-none-strings", False, m_lin_none_strings),
         ("n-zero-width-range-dominance", False, m_lin_zero_width),
@@ -814,6 +1131,7 @@ MUTS = {
         ("F-terms<1", True, m_kfl_terms),
         ("F-omin>=omax", True, m_kfl_bounds),
         ("F-monotonicities", True, m_kfl_mono),
+        ("F-units-input-rank", True, m_kfl_units_rank),
         ("f-string-monotonicities", False, m_kfl_string_mono),
     ],
     "rtl": [
@@ -832,32 +1150,81 @@ MUTS = {
         ("C-bad-strings", True, m_cdf_bad_strings),
     ],
 }
-SPELLING = {"l-tuple-spelling", "l-numpy-sizes", "l-single-tuple",
+SPELLING = {"l-tuple-spelling", "l-tuple-containers", "l-numpy-sizes",
+            "l-single-tuple",
             "l-string-spelling", "p-numpy-keypoints", "p-string-spelling",
-            "n-scalar-monotonicity", "n-none-strings", "k-list-pairs",
-            "f-string-monotonicities"}
-# (single tuples are wrapped by the Lattice layer's constructor only.)
-MUTS["lattice_constraints"] = [m for m in MUTS["lattice"] if m[0] not in (
-    "L-units-input-rank", "L-bad-interpolation", "l-iterations",
-    "l-single-tuple")]
+            "n-scalar-monotonicity", "n-none-strings",
+            "k-list-pairs", "f-string-monotonicities"}
+# (single tuples are wrapped by the Lattice layer's constructor only; the
+# input-shape rules belong to the layer's build.)
+_CONSTRAINTS_FN = {"L-non-int-dimension": m_lat_nonint_dim,
+                   "L-junimod-dim-out-of-range": m_lat_junimod_range}
+MUTS["lattice_constraints"] = [
+    (m[0], m[1], _CONSTRAINTS_FN.get(m[0], m[2])) for m in MUTS["lattice"]
+    if m[0] not in ("L-units-input-rank", "L-bad-interpolation",
+                    "l-iterations", "l-single-tuple", "L-input-list-length",
+                    "l-list-input")]
 MUT_INDEX = {(k, m[0]): m for k, ms in MUTS.items() for m in ms}
+# Sampling weights (default 1): classes that were rare in the evidence and the
+# classes added by the coverage review are drawn more often.
+WEIGHT = {
+    # added by the coverage review
+    "L-unimod-length": 3, "L-opposite-dominance": 3, "L-non-int-dimension": 3,
+    "L-joint-mono-length": 3, "L-junimod-dim-out-of-range": 3,
+    "L-input-list-length": 3, "l-list-input": 3, "l-equal-bounds": 3,
+    "l-tuple-containers": 3, "N-min>max-constrained": 3,
+    "N-opposite-range-dominance": 3, "N-dominance-malformed": 3,
+    "N-units-input-rank": 3, "n-int-bounds": 4, "F-units-input-rank": 2,
+    # rare in the evidence before the review
+    "l-single-tuple": 3, "l-self-dominance": 2, "l-duplicate-constraint": 2,
+    "l-tuple-spelling": 2, "L-opposite-trusts": 2, "L-trust-malformed": 2,
+    "L-omin>omax": 2, "L-units-input-rank": 3, "L-dominance-nonmono": 2,
+    "p-learned-keypoints": 2, "p-equal-bounds": 3, "p-missing-modes": 3,
+    "p-numpy-keypoints": 3, "P-bad-strings": 2, "N-bad-bound-type": 2,
+    "N-dominance-nonincreasing": 2, "N-cyclic-dominance": 2,
+    "k-list-pairs": 2, "K-two-cycle": 2, "F-terms<1": 2,
+    "F-monotonicities": 2, "f-string-monotonicities": 2,
+    "R-too-few-slots": 2, "R-bad-interpolation": 2,
+    # the generator of open finding F-C16-3
+    "n-zero-width-range-dominance": 3}
+PICK = {k: [m for m in ms for _ in range(WEIGHT.get(m[0], 1))]
+        for k, ms in MUTS.items()}
+
+
+def _content_hash(*parts):
+  return hash32(json.dumps(parts, sort_keys=True, default=str))
 
 
 @st.composite
 def _layer_case(draw, tier):
-  kind = draw(st.sampled_from(["lattice", "lattice", "lattice_constraints",
-                               "pwl", "pwl", "linear", "linear", "categorical",
-                               "kfl", "rtl", "cdf"]))
+  # weights roughly follow the sizes of the mutation tables
+  kind = draw(st.sampled_from(["lattice"] * 4 + ["lattice_constraints"] * 2 +
+                              ["pwl", "pwl", "linear", "linear", "linear",
+                               "categorical", "kfl", "rtl", "cdf"]))
   kw = draw(BASES[kind]())
-  nm = draw(st.sampled_from([0, 1, 1, 1, 2]))
+  nm = draw(st.sampled_from([0, 1, 1, 1, 2, 2]))
   applied = []
-  chosen = [draw(st.sampled_from(MUTS[kind])) for _ in range(nm)]
+  weights = draw(S.array_desc(scales=[1e-3, 1.0, 1.0, 10.0, 1e3]))
+  x = draw(S.array_desc(kinds=["normal", "uniform", "ints", "ties"],
+                        scales=[1e-2, 1.0, 1.0, 10.0, 1e3]))
+  aux = draw(S.seeds)
+  # Hypothesis builds many examples by copying parts of earlier ones, which
+  # leaves some rows of a 30-row table with 2 cases and others with 150.  The
+  # row is therefore chosen by a hash of everything drawn so far (any two
+  # distinct cases choose independently); one case in four still draws the
+  # row directly (the coverage-guided campaign can steer those).
+  h = _content_hash(kind, kw, weights, x, aux, draw(S.seeds))
+  if draw(st.integers(0, 3)) == 0:
+    chosen = [draw(st.sampled_from(PICK[kind])) for _ in range(nm)]
+  else:
+    chosen = [PICK[kind][hash32(h, k) % len(PICK[kind])] for k in range(nm)]
   # At most one listed-invalid mutation, applied after the unlisted ones so
   # that nothing can undo it; spelling mutations change container types and
   # are only applied (last) when no listed mutation is present.
   listed_ones = [m for m in chosen if m[1]][:1]
   others = [m for m in chosen if not m[1] and m[0] not in SPELLING]
   spell = [m for m in chosen if m[0] in SPELLING] if not listed_ones else []
+  spell.sort(key=lambda m: m[0] not in ("l-single-tuple", "l-tuple-containers"))
   for mid, listed, fn in others + listed_ones + spell:
     if mid in applied:
       continue
@@ -866,46 +1233,184 @@ def _layer_case(draw, tier):
       kw = new
       applied.append(mid)
   return {"target": "layer", "kind": kind, "kwargs": kw, "muts": applied,
-          "weights": draw(S.array_desc(scales=[1e-3, 1.0, 1.0, 10.0, 1e3])),
-          "x": draw(S.array_desc(kinds=["normal", "uniform", "ints", "ties"],
-                                 scales=[1e-2, 1.0, 1.0, 10.0, 1e3])),
-          "aux": draw(S.seeds)}
+          "weights": weights, "x": x, "aux": aux}
 
 
-PREMADE_MUTS = ["none", "none", "no-feature-configs", "ensemble-no-structure",
+PREMADE_MUTS = ["none", "none", "none", "no-feature-configs",
+                "ensemble-no-structure",
                 "ensemble-one-lattice", "rtl-mixed-sizes", "rtl-unimodality",
                 "rtl-trust", "rtl-dominance", "kfl-regularizer",
                 "kfl-mixed-sizes", "kfl-unimodality", "kfl-trust",
                 "nonnumeric-keypoints", "nonnumeric-output-init",
-                "categorical-monotonicity-malformed", "lattices-not-lists"]
+                "categorical-monotonicity-malformed", "lattices-not-lists",
+                # rules of premade_lib.verify_config added by the review
+                "rtl-no-num-lattices", "rtl-feature-lattice-regularizer",
+                "kfl-feature-lattice-regularizer",
+                "categorical-monotonicity-index",
+                "categorical-monotonicity-element",
+                "categorical-monotonicity-element", "keypoints-one-nonnumber",
+                "keypoints-one-nonnumber", "rtl-no-num-lattices",
+                "lattices-nonstring-element", "agg-middle-dimension<1",
+                "agg-middle-dimension<1",
+                "agg-monotonicity-without-calibration",
+                "agg-monotonicity-without-calibration"]
+# mutations that also apply to an AggregateFunctionConfig
+AGG_GENERIC = ["none", "no-feature-configs", "nonnumeric-keypoints",
+               "nonnumeric-output-init", "categorical-monotonicity-malformed",
+               "categorical-monotonicity-index",
+               "categorical-monotonicity-element", "keypoints-one-nonnumber"]
+
+
+@st.composite
+def _aggregate_desc(draw, tier):
+  """A valid AggregateFunctionConfig description: the features / output part
+  of a calibrated-lattice description plus the middle-lattice options.  The
+  middle calibrators get an explicit monotonicity (the layer rejects the
+  config default None), and without middle calibration the middle lattice is
+  hypercube-interpolated (its inputs lie in [-1, 1])."""
+  desc = draw(M.model_desc(tier, kinds=["lattice"]))
+  desc["kind"] = "aggregate"
+  desc["parameterization"] = "all_vertices"
+  mc = draw(st.booleans())
+  desc["agg"] = {
+      "middle_dimension": draw(st.sampled_from([1, 1, 2, 3])),
+      "middle_lattice_size": draw(st.sampled_from([2, 3])),
+      "middle_calibration": mc,
+      "middle_calibration_num_keypoints": draw(st.sampled_from([2, 5, 10])),
+      "middle_calibration_input_keypoints_type": draw(st.sampled_from(
+          ["fixed", "learned_interior"])),
+      "middle_monotonicity": draw(st.sampled_from(
+          ["increasing", 1, "none", 0])) if mc else None,
+      "middle_lattice_interpolation": draw(st.sampled_from(
+          ["hypercube", "simplex"])) if mc else "hypercube",
+      "aggregation_lattice_interpolation": draw(st.sampled_from(
+          ["hypercube", "simplex"]))}
+  return desc
+
+
+def _force_categorical(desc):
+  """Makes feature 0 categorical when the description has no categorical
+  feature (pairwise constraints that named it are dropped)."""
+  if any(f["type"] == "categorical" for f in desc["features"]):
+    return
+  f = desc["features"][0]
+  desc["features"][0] = {"name": f["name"], "type": "categorical",
+                         "num_buckets": 3, "pairs": [[0, 2]],
+                         "lattice_size": f["lattice_size"], "default": None}
+  desc["trust"] = desc["dominance"] = None
+
+
+def _premade_kinds(mut):
+  if mut.startswith("rtl-"):
+    return ["ensemble_rtl"]
+  if mut.startswith("lattices-"):
+    return ["ensemble_explicit", "ensemble_random"]
+  if mut.startswith("ensemble-"):
+    return ["ensemble_explicit", "ensemble_random", "ensemble_rtl"]
+  if mut.startswith("kfl-"):
+    return ["lattice", "ensemble_explicit", "ensemble_random", "ensemble_rtl"]
+  return ["linear", "lattice", "ensemble_explicit", "ensemble_random",
+          "ensemble_rtl"]
 
 
 @st.composite
 def _premade_case(draw, tier):
-  mut = draw(st.sampled_from(PREMADE_MUTS))
-  if mut.startswith("rtl-"):
-    kinds = ["ensemble_rtl"]
-  elif mut.startswith("ensemble-") or mut == "lattices-not-lists":
-    kinds = ["ensemble_explicit", "ensemble_random", "ensemble_rtl"]
-  elif mut.startswith("kfl-"):
-    kinds = ["lattice", "ensemble_explicit", "ensemble_random", "ensemble_rtl"]
+  # the mutation is chosen by a hash of the drawn description (even spread,
+  # see _layer_case); the description kind is then fitted to the mutation.
+  aux = draw(S.seeds)
+  agg_desc = draw(_aggregate_desc(tier))
+  h = _content_hash(agg_desc, aux, draw(S.seeds))
+  if draw(st.integers(0, 3)) == 0:
+    mut = draw(st.sampled_from(PREMADE_MUTS))
   else:
-    kinds = ["linear", "lattice", "ensemble_explicit", "ensemble_random",
-             "ensemble_rtl"]
-  desc = draw(M.model_desc(tier, kinds=kinds))
-  return {"target": "premade", "desc": desc, "mut": mut, "aux": draw(S.seeds)}
+    mut = PREMADE_MUTS[h % len(PREMADE_MUTS)]
+  if mut.startswith("agg-") or (mut in AGG_GENERIC and hash32(h, "agg") % 4
+                                == 0):
+    desc = agg_desc
+  else:
+    desc = draw(M.model_desc(tier, kinds=_premade_kinds(mut)))
+  if mut.startswith("categorical-"):
+    _force_categorical(desc)
+  return {"target": "premade", "desc": desc, "mut": mut, "aux": aux}
 
 
-SYN_KINDS = ["lattice", "lattice", "pwl", "linear", "kfl", "rtl_cfg"]
+def _force_trust(desc, direction, trust_type):
+  """Puts a trust constraint into a lattice / explicit-ensemble description
+  with at least two numeric features (main made increasing)."""
+  num = [i for i, f in enumerate(desc["features"]) if f["type"] == "numeric"]
+  if len(num) < 2 or desc.get("trust"):
+    return
+  m, c = num[0], num[1]
+  fm = desc["features"][m]
+  if fm["mono"] == 0:
+    fm["mono"], fm["convexity"] = 1, 0
+  desc["dominance"] = None
+  desc["trust"] = {"main": m, "cond": c, "type": trust_type,
+                   "direction": direction}
+  for lat in desc.get("lattices") or []:      # keep main with conditional
+    names = [desc["features"][m]["name"], desc["features"][c]["name"]]
+    if names[1] in lat and names[0] not in lat:
+      lat.append(names[0])
+
+
+@st.composite
+def _premade_synonym_case(draw, tier):
+  """A valid premade description built twice: integer spellings (as
+  vlib.models writes them) and string spellings of monotonicity, convexity,
+  trust direction and unimodality."""
+  focus = draw(st.sampled_from(["plain", "trust", "trust", "unimodal",
+                                "unimodal"]))
+  kinds = {"plain": ["linear", "lattice", "ensemble_explicit",
+                     "ensemble_random", "ensemble_rtl"],
+           "trust": ["lattice", "ensemble_explicit"],
+           "unimodal": ["lattice", "ensemble_explicit", "ensemble_random"]}
+  desc = draw(M.model_desc(tier, kinds=kinds[focus]))
+  if focus != "plain":
+    desc["parameterization"] = "all_vertices"
+  if focus == "trust":
+    _force_trust(desc, draw(st.sampled_from([1, -1])),
+                 draw(st.sampled_from(["edgeworth", "trapezoid"])))
+  unimodal = None
+  if desc["parameterization"] == "all_vertices" and desc["kind"] in (
+      "lattice", "ensemble_explicit", "ensemble_random"):
+    t = desc.get("trust") or {}
+    d = desc.get("dominance") or {}
+    busy = (t.get("main"), t.get("cond"), d.get("dominant"), d.get("weak"))
+    cand = [i for i, f in enumerate(desc["features"])
+            if f["type"] == "numeric" and i not in busy and
+            (f["mono"] == 0 or focus == "unimodal")]
+    if cand and (focus == "unimodal" or draw(st.booleans())):
+      i = draw(st.sampled_from(cand))
+      f = desc["features"][i]
+      f["mono"], f["clamp_min"], f["clamp_max"] = 0, False, False
+      f["lattice_size"] = 3
+      unimodal = [i, draw(st.sampled_from([1, -1]))]
+  return {"target": "premade_synonym", "desc": desc, "unimodal": unimodal,
+          "weights": draw(S.array_desc(scales=[1e-3, 1.0, 1.0, 10.0])),
+          "aux": draw(S.seeds)}
+
+
+SYN_KINDS = ["lattice", "lattice", "pwl", "linear", "linear", "kfl", "rtl_cfg",
+             "categorical"]
 
 
 @st.composite
 def _synonym_case(draw, tier):
   kind = draw(st.sampled_from(SYN_KINDS))
   base = {"lattice": base_lattice, "pwl": base_pwl, "linear": base_linear,
-          "kfl": base_kfl, "rtl_cfg": base_lattice}[kind]
+          "kfl": base_kfl, "rtl_cfg": base_lattice,
+          "categorical": base_categorical}[kind]
+  kw = draw(base())
+  if kind == "categorical" and not kw["monotonicities"]:
+    # the only categorical synonym is the spelling of a pair
+    kw["num_buckets"] = max(2, kw["num_buckets"])
+    kw["monotonicities"] = [T(0, kw["num_buckets"] - 1)]
+  if kind == "kfl" and not kw["monotonicities"] and draw(st.booleans()):
+    kw["monotonicities"] = [1] + [0] * (kw["dims"] - 1)
+  if kind == "lattice" and draw(st.booleans()):
+    _lat_some_constraint(draw, kw)        # something to spell as one tuple
   return {"target": "synonym", "kind": kind if kind != "rtl_cfg" else
-          "lattice_constraints", "kwargs": draw(base()),
+          "lattice_constraints", "kwargs": kw,
           "weights": draw(S.array_desc(scales=[1e-3, 1.0, 1.0, 10.0])),
           "x": draw(S.array_desc(kinds=["normal", "uniform"],
                                  scales=[1.0, 3.0])),
@@ -913,8 +1418,13 @@ def _synonym_case(draw, tier):
 
 
 def strategy(tier):
-  return st.one_of(_layer_case(tier), _layer_case(tier), _layer_case(tier),
-                   _layer_case(tier), _synonym_case(tier), _premade_case(tier))
+  # (one_of merges repeats of one strategy object, so every entry is built
+  # separately: 36 : 8 : 8 : 1; a premade synonym case builds two models and
+  # costs about 0.6 s)
+  return st.one_of([_layer_case(tier) for _ in range(36)] +
+                   [_synonym_case(tier) for _ in range(8)] +
+                   [_premade_case(tier) for _ in range(8)] +
+                   [_premade_synonym_case(tier)])
 
 
 # ====================================================================
@@ -933,6 +1443,7 @@ def _build_layer(kind, kw):
   late_ok = kw.pop("_late_ok", False)
   rank2 = kw.pop("_input_rank2", False)
   bad_key = kw.pop("_bad_key", False)
+  n_list = kw.pop("_input_list", None)
   info = {"late_ok": late_ok}
   if kind == "lattice":
     layer = tfl.layers.Lattice(**kw)
@@ -940,6 +1451,10 @@ def _build_layer(kind, kw):
     u = kw["units"]
     shape = (None, d) if (u == 1 or rank2) else (None, u, d)
     xshape = lambda b: (b, d) if (u == 1 or rank2) else (b, u, d)
+    if n_list is not None:
+      # documented list form: n_list tensors of shape (batch, [units,] 1)
+      shape = [(None, 1) if (u == 1 or rank2) else (None, u, 1)] * n_list
+      info["as_list"] = True
     xr = (-1.0, float(max(2, max(int(s) for s in kw["lattice_sizes"]))))
     return layer, shape, xshape, xr, info
   if kind == "pwl":
@@ -951,9 +1466,9 @@ def _build_layer(kind, kw):
   if kind == "linear":
     layer = tfl.layers.Linear(**kw)
     d, u = kw["num_input_dims"], kw["units"]
-    shape = (None, d) if u == 1 else (None, u, d)
-    return layer, shape, (lambda b: (b, d) if u == 1 else (b, u, d)), (
-        -3.0, 3.0), info
+    shape = (None, d) if (u == 1 or rank2) else (None, u, d)
+    return layer, shape, (lambda b: (b, d) if (u == 1 or rank2) else
+                          (b, u, d)), (-3.0, 3.0), info
   if kind == "categorical":
     layer = tfl.layers.CategoricalCalibration(**kw)
     u = kw["units"]
@@ -963,9 +1478,9 @@ def _build_layer(kind, kw):
     d = kw.pop("dims")
     layer = tfl.layers.KroneckerFactoredLattice(**kw)
     u = kw["units"]
-    shape = tf.TensorShape((None, d) if u == 1 else (None, u, d))
-    return layer, shape, (lambda b: (b, d) if u == 1 else (b, u, d)), (
-        -1.0, float(kw["lattice_sizes"])), info
+    shape = tf.TensorShape((None, d) if (u == 1 or rank2) else (None, u, d))
+    return layer, shape, (lambda b: (b, d) if (u == 1 or rank2) else
+                          (b, u, d)), (-1.0, float(kw["lattice_sizes"])), info
   if kind == "rtl":
     n_inc, n_un = kw.pop("n_inc"), kw.pop("n_un")
     layer = tfl.layers.RTL(**kw)
@@ -978,7 +1493,41 @@ def _build_layer(kind, kw):
   raise ValueError(kind)
 
 
+class _FullTracebacks(object):
+  """Keras / TensorFlow strip their own frames from tracebacks of exceptions
+  that pass through a layer call; with the filter on, an error raised inside
+  TensorFlow would seem to come from the library line that called it.  The
+  origin test of oracle (a) needs the real raising frame."""
+
+  def __enter__(self):
+    import tensorflow as tf
+    self._was = tf.debugging.is_traceback_filtering_enabled()
+    tf.debugging.disable_traceback_filtering()
+
+  def __exit__(self, *exc):
+    import tensorflow as tf
+    if self._was:
+      tf.debugging.enable_traceback_filtering()
+    return False
+
+
+def _raised_in_library(e):
+  """True when the frame that raised e is tensorflow_lattice code (the
+  library's own validation), not Keras / TensorFlow / NumPy called by it."""
+  import traceback
+  frames = traceback.extract_tb(e.__traceback__)
+  if not frames:
+    return False
+  fn = frames[-1].filename.replace("\\", "/")
+  return "/tensorflow_lattice/" in fn and "/verif/" not in fn
+
+
 def _run_layer_pipeline(case, out, kw=None):
+  with _FullTracebacks():
+    return _run_layer_pipeline_inner(case, out, kw)
+
+
+def _run_layer_pipeline_inner(case, out, kw=None):
   """Runs construct/build/project/evaluate; returns dict with stage results.
 
   result["rejected"] = (stage, exc) when an exception ended the pipeline;
@@ -994,7 +1543,7 @@ def _run_layer_pipeline(case, out, kw=None):
   try:
     if kind == "lattice_constraints":
       k = decode(copy.deepcopy(kw))
-      for drop in ("units", "interpolation", "_input_rank2"):
+      for drop in ("units", "interpolation", "_input_rank2", "_input_list"):
         k.pop(drop, None)
       units = kw["units"]
       con = tfl.lattice_layer.LatticeConstraints(**k)
@@ -1067,6 +1616,8 @@ def _run_layer_pipeline(case, out, kw=None):
       # documented call form without missing_input_value: [x, is_missing]
       miss = (np.arange(x.size).reshape(x.shape) % 3 == 0).astype(np.float32)
       y = layer([tf.constant(x), tf.constant(miss)])
+    elif info.get("as_list"):
+      y = layer([tf.constant(x[..., j:j + 1]) for j in range(x.shape[-1])])
     else:
       y = layer(tf.constant(x))
     ys = y if isinstance(y, list) else [y]
@@ -1075,6 +1626,17 @@ def _run_layer_pipeline(case, out, kw=None):
   except Exception as e:  # pylint: disable=broad-except
     res["rejected"] = (res["stage"], e)
     return res
+
+
+# Latest pipeline stage at which the library's own ValueError for a listed
+# rule counts as "rejected up front" (default: build).  CDF validates its
+# option strings in call(), Linear finds a dominance cycle and PWLCalibration
+# the clamp-without-monotonicity combination in the first projection; these
+# stages are today's behaviour and are not allowed to slip further.
+STAGES = ["construct", "build", "project", "evaluate"]
+LATEST_STAGE = {("cdf", "C-bad-strings"): "evaluate",
+                ("linear", "N-cyclic-dominance"): "project",
+                ("pwl", "P-clamp-without-mono"): "project"}
 
 
 def _judge_pipeline(case, res, listed, out, sig):
@@ -1090,11 +1652,32 @@ def _judge_pipeline(case, res, listed, out, sig):
     out.checks += 1
     if listed:
       out.nontrivial = True
+      # "rejected ... when the layer, constraint or model is constructed or
+      # built": construct / build, or the stage of LATEST_STAGE for the three
+      # rules the library checks later, any stage for the documented late
+      # rejection; and by the library's own validation, not by an error that
+      # surfaces from Keras / TensorFlow further down.
+      latest = max([STAGES.index(LATEST_STAGE.get((kind, m), "build"))
+                    for m in case["muts"] if MUT_INDEX[(kind, m)][1]] or [1])
+      in_time = STAGES.index(stage) <= latest or res.get("late_ok")
       if not ok_type:
         out.violate("listed-invalid configuration (%s) raised %s instead of "
                     "ValueError at %s: %s" % (listed, type(e).__name__, stage,
                                               str(e)[:200]),
                     kind="wrong-exception", exc=type(e).__name__, stage=stage,
+                    **sig)
+      elif not _raised_in_library(e):
+        out.violate("listed-invalid configuration (%s) was not rejected by "
+                    "the library's validation: %s raised outside "
+                    "tensorflow_lattice at %s: %s" % (
+                        listed, type(e).__name__, stage, str(e)[:200]),
+                    kind="rejected-elsewhere", exc=type(e).__name__,
+                    stage=stage, **sig)
+      elif not in_time:
+        out.violate("listed-invalid configuration (%s) was rejected only at "
+                    "%s (%s), not at construction / build" % (
+                        listed, stage, str(e)[:200]),
+                    kind="rejected-late", exc=type(e).__name__, stage=stage,
                     **sig)
       else:
         out.label("rejected:listed@" + stage)
@@ -1132,7 +1715,8 @@ def _run_layer(case, out):
     kw = case["kwargs"]
     lo, hi = kw.get("input_min") or [], kw.get("input_max") or []
     sig["zero_width_range_dom"] = bool(any(
-        i < len(lo) and i < len(hi) and lo[i] is not None and lo[i] == hi[i]
+        isinstance(i, int) and 0 <= i < len(lo) and i < len(hi) and
+        lo[i] is not None and lo[i] == hi[i]
         for p in (kw.get("range_dominances") or []) for i in p["t"]))
   res = _run_layer_pipeline(case, out)
   _judge_pipeline(case, res, "+".join(listed), out, sig)
@@ -1140,9 +1724,16 @@ def _run_layer(case, out):
 
 # ---------------------------------------------------------------- synonyms
 def _respell(kind, kw, rs):
-  """Returns (kw_a, kw_b, n_differences): two spellings of the same config."""
+  """Returns (kw_a, kw_b, n_differences, tags): two spellings of one config.
+
+  Strings vs integers are always respelled; the container respellings (tuple
+  for list, numpy array for list, single tuple for one-element list) are
+  switched on and off by rs so that a difference can be attributed.
+  """
   a, b = copy.deepcopy(kw), copy.deepcopy(kw)
   n = 0
+  tags = []
+  coin = lambda: bool(rs.randint(2))
   if kind in ("lattice", "lattice_constraints"):
     b["monotonicities"] = ["increasing" if m == 1 else "none"
                            for m in a["monotonicities"]]
@@ -1156,18 +1747,37 @@ def _respell(kind, kw, rs):
         b[key] = [T(t["t"][0], t["t"][1], "positive" if t["t"][2] == 1 else
                     "negative") for t in a[key]]
         n += 1
-    if kind == "lattice":
+    single = kind == "lattice" and rs.randint(4) > 0
+    if single:
       for key in ("edgeworth_trusts", "trapezoid_trusts",
                   "monotonic_dominances", "range_dominances",
                   "joint_monotonicities", "joint_unimodalities"):
         if b[key] and len(b[key]) == 1:
           b[key] = b[key][0]        # single tuple instead of one-element list
           n += 1
+          tags.append("single-tuple")
+    if coin():
+      # documented "list or tuple" / "iterable of tuples" containers
+      for key in ("lattice_sizes", "monotonicities", "unimodalities"):
+        if isinstance(b[key], list) and b[key]:
+          b[key] = T(*b[key])
+          n += 1
+      n += _tuple_containers(b)
+      tags.append("tuple-containers")
   elif kind == "pwl":
     b["monotonicity"] = {1: "increasing", -1: "decreasing", 0: "none"}[
         a["monotonicity"]]
     b["convexity"] = {1: "convex", -1: "concave", 0: "none"}[a["convexity"]]
     n += 2
+    if coin():
+      # "Can be anything accepted by tf.convert_to_tensor()"
+      b["input_keypoints"] = {"np_arr": list(a["input_keypoints"])}
+      n += 1
+      tags.append("numpy-keypoints")
+    elif coin():
+      b["input_keypoints"] = T(*a["input_keypoints"])
+      n += 1
+      tags.append("tuple-containers")
   elif kind == "linear":
     names = {1: "increasing", -1: "decreasing", 0: "none"}
     b["monotonicities"] = [names[m] for m in a["monotonicities"]]
@@ -1175,24 +1785,46 @@ def _respell(kind, kw, rs):
     if len(set(a["monotonicities"])) == 1:
       a["monotonicities"] = a["monotonicities"][0]     # scalar spelling
       n += 1
+      tags.append("scalar-monotonicity")
     if not a["range_dominances"]:
-      d = a["num_input_dims"]
-      if a["input_min"]:
-        b["input_min"] = ["none" if v is None else v for v in a["input_min"]]
-        n += 1
+      for key in ("input_min", "input_max"):
+        if a[key] and any(v is None for v in a[key]):
+          b[key] = ["none" if v is None else v for v in a[key]]
+          n += 1
+          tags.append(key + "-none-string")
+    if coin():
+      for key in ("monotonicities", "input_min", "input_max",
+                  "monotonic_dominances", "range_dominances"):
+        if isinstance(b[key], list) and b[key]:
+          b[key] = T(*b[key])
+          n += 1
+      tags.append("tuple-containers")
   elif kind == "kfl":
     if a["monotonicities"]:
       b["monotonicities"] = ["increasing" if m else "none"
                              for m in a["monotonicities"]]
       n += 1
-  return a, b, n
+      if coin():
+        b["monotonicities"] = T(*b["monotonicities"])
+        n += 1
+        tags.append("tuple-containers")
+      if coin():
+        a["monotonicities"] = T(*a["monotonicities"])
+        n += 1
+  elif kind == "categorical":
+    if a["monotonicities"]:
+      # "List of pairs": a pair may be a list or a tuple
+      b["monotonicities"] = [list(p["t"]) for p in a["monotonicities"]]
+      n += 1
+      tags.append("list-pairs")
+  return a, b, n, tags
 
 
 def _run_synonym(case, out):
   kind = case["kind"]
   rs = np.random.RandomState(case["aux"])
-  a, b, n = _respell(kind, case["kwargs"], rs)
-  out.label("synonym:" + kind)
+  a, b, n, tags = _respell(kind, case["kwargs"], rs)
+  out.label("synonym:" + kind, *["synonym:" + t for t in sorted(set(tags))])
   sig = dict(layer=kind, target="synonym")
   ca = dict(case, kwargs=a, muts=[])
   cb = dict(case, kwargs=b, muts=[])
@@ -1216,6 +1848,41 @@ def _run_synonym(case, out):
 
 
 # ---------------------------------------------------------------- premade
+def _aggregate_config(desc):
+  import tensorflow_lattice as tfl
+  a = desc["agg"]
+  return tfl.configs.AggregateFunctionConfig(
+      feature_configs=M._feature_configs(desc),  # pylint: disable=protected-access
+      middle_dimension=a["middle_dimension"],
+      middle_lattice_size=a["middle_lattice_size"],
+      middle_calibration=a["middle_calibration"],
+      middle_calibration_num_keypoints=a["middle_calibration_num_keypoints"],
+      middle_calibration_input_keypoints_type=a[
+          "middle_calibration_input_keypoints_type"],
+      middle_monotonicity=a["middle_monotonicity"],
+      middle_lattice_interpolation=a["middle_lattice_interpolation"],
+      aggregation_lattice_interpolation=a[
+          "aggregation_lattice_interpolation"],
+      output_min=desc["omin"], output_max=desc["omax"],
+      output_calibration=desc["output_calibration"],
+      output_calibration_num_keypoints=len(desc["output_init"]),
+      output_initialization=list(desc["output_init"]),
+      output_calibration_input_keypoints_type=desc["output_kp_type"])
+
+
+def _aggregate_inputs(desc, aux):
+  """Ragged inputs (3 rows of 1-3 blocks) in feature-config order."""
+  import tensorflow as tf
+  rs = np.random.RandomState(aux)
+  lens = rs.randint(1, 4, size=3)
+  x = M.base_points(desc, int(lens.sum()), aux)
+  cols = []
+  for j, f in enumerate(desc["features"]):
+    v = x[:, j].astype(np.int32 if f["type"] == "categorical" else np.float32)
+    cols.append(tf.RaggedTensor.from_row_lengths(v, lens))
+  return cols
+
+
 def _run_premade(case, out):
   import tensorflow as tf
   import tensorflow_lattice as tfl
@@ -1228,7 +1895,8 @@ def _run_premade(case, out):
   tf.random.set_seed(desc["seed"])
   np.random.seed(desc["seed"])
   try:
-    cfg = M.model_config(desc)
+    cfg = _aggregate_config(desc) if kind == "aggregate" else (
+        M.model_config(desc))
   except Exception as e:  # pylint: disable=broad-except
     out.violate("valid premade description could not be turned into a config: "
                 "%s %s" % (type(e).__name__, e), kind="not-total",
@@ -1236,6 +1904,7 @@ def _run_premade(case, out):
     return
   fcs = cfg.feature_configs
   numeric = [f for f in fcs if not f.num_buckets]
+  aux_rs = np.random.RandomState(case["aux"])
   is_ens = kind.startswith("ensemble")
   param_ok = kind in ("lattice",) or is_ens
   if mut == "no-feature-configs":
@@ -1282,25 +1951,80 @@ def _run_premade(case, out):
     f.monotonicity = [("a", "b")]
   elif mut == "lattices-not-lists" and is_ens and cfg.lattices != "rtl_layer":
     cfg.lattices = [0, 1]
+  elif mut == "rtl-no-num-lattices" and kind == "ensemble_rtl":
+    # "lattices is set to 'rtl_layer' and num_lattices is not specified"
+    cfg.num_lattices = None
+  elif mut == "rtl-feature-lattice-regularizer" and kind == "ensemble_rtl":
+    # "'rtl_layer' and there are per-feature lattice regularizers"
+    fcs[aux_rs.randint(len(fcs))].regularizer_configs = [
+        tfl.configs.RegularizerConfig(
+            ["torsion", "laplacian"][aux_rs.randint(2)], l1=0.0, l2=0.1)]
+  elif mut == "kfl-feature-lattice-regularizer" and param_ok:
+    cfg.parameterization = "kronecker_factored"
+    fcs[aux_rs.randint(len(fcs))].regularizer_configs = [
+        tfl.configs.RegularizerConfig(
+            ["torsion", "laplacian"][aux_rs.randint(2)], l1=0.1, l2=0.0)]
+  elif mut == "categorical-monotonicity-index" and any(
+      f.num_buckets for f in fcs):
+    # "not in the range [0, num_buckets]" (the code: 0 <= index < num_buckets)
+    f = [f for f in fcs if f.num_buckets][0]
+    nb = f.num_buckets
+    f.monotonicity = [[(0, nb)], [(nb + 2, 0)], [(0, -1)], [(0, 1), (-2, 1)]][
+        aux_rs.randint(4)]
+  elif mut == "categorical-monotonicity-element" and any(
+      f.num_buckets for f in fcs):
+    # "any element in monotonicity is not an iterable"
+    f = [f for f in fcs if f.num_buckets][0]
+    f.monotonicity = [[1], [(0, 1), 0], [0, 1]][aux_rs.randint(3)]
+  elif mut == "keypoints-one-nonnumber" and numeric:
+    # "contains non-{int/float} values for a numerical feature"
+    f = numeric[aux_rs.randint(len(numeric))]
+    kp = list(f.pwl_calibration_input_keypoints)
+    kp[aux_rs.randint(len(kp))] = ["1.0", None, (0.5,)][aux_rs.randint(3)]
+    f.pwl_calibration_input_keypoints = kp
+  elif mut == "lattices-nonstring-element" and is_ens and (
+      cfg.lattices != "rtl_layer"):
+    # "lattices is not iterable or contains non-string values"
+    lat = [list(l) for l in cfg.lattices]
+    i = aux_rs.randint(len(lat))
+    lat[i][aux_rs.randint(len(lat[i]))] = [1, None, 0.5][aux_rs.randint(3)]
+    cfg.lattices = lat
+  elif mut == "agg-middle-dimension<1" and kind == "aggregate":
+    cfg.middle_dimension = [0, -1, -3][aux_rs.randint(3)]
+  elif mut == "agg-monotonicity-without-calibration" and kind == "aggregate":
+    cfg.middle_calibration = False
+    cfg.middle_monotonicity = ["increasing", 1, "none", 0][aux_rs.randint(4)]
   elif mut != "none":
     applicable = False
   listed = mut if (mut != "none" and applicable) else ""
   if not applicable:
     out.label("mut-not-applicable")
   cls = {"linear": tfl.premade.CalibratedLinear,
-         "lattice": tfl.premade.CalibratedLattice}.get(
+         "lattice": tfl.premade.CalibratedLattice,
+         "aggregate": tfl.premade.AggregateFunction}.get(
              kind, tfl.premade.CalibratedLatticeEnsemble)
   stage = "construct"
   out.checks += 1
   out.nontrivial = True
   try:
-    model = cls(cfg)
-    stage = "evaluate"
-    x = M.base_points(desc, 6, case["aux"])
-    y = model(M.model_inputs(desc, x)).numpy()
+    with _FullTracebacks():
+      model = cls(cfg)
+      stage = "evaluate"
+      if kind == "aggregate":
+        y = model(_aggregate_inputs(desc, case["aux"])).numpy()
+      else:
+        x = M.base_points(desc, 6, case["aux"])
+        y = model(M.model_inputs(desc, x)).numpy()
   except Exception as e:  # pylint: disable=broad-except
     if listed:
-      if isinstance(e, ValueError) and stage == "construct":
+      if isinstance(e, ValueError) and stage == "construct" and (
+          not _raised_in_library(e)):
+        out.violate("malformed premade config (%s) was not rejected by the "
+                    "library's validation: ValueError raised outside "
+                    "tensorflow_lattice: %s" % (listed, str(e)[:200]),
+                    kind="rejected-elsewhere", exc=type(e).__name__,
+                    stage=stage, **sig)
+      elif isinstance(e, ValueError) and stage == "construct":
         out.label("rejected:listed@construct")
       else:
         out.violate("malformed premade config (%s) raised %s at %s instead of "
@@ -1323,12 +2047,102 @@ def _run_premade(case, out):
     out.label("accepted:total")
 
 
+# ------------------------------------------------------- premade synonyms
+_MONO_NAMES = {1: "increasing", -1: "decreasing", 0: "none"}
+_CONV_NAMES = {1: "convex", -1: "concave", 0: "none"}
+_UNI_NAMES = {1: "valley", -1: "peak", 0: "none"}
+_DIR_NAMES = {1: "positive", -1: "negative"}
+
+
+def _spell_premade(cfg, unimodal, strings):
+  """Writes the spellings of one style into the feature configs of cfg (built
+  by vlib.models with integers); returns the number of respelled options."""
+  n = 0
+  for i, fc in enumerate(cfg.feature_configs):
+    if unimodal is not None and unimodal[0] == i:
+      fc.unimodality = _UNI_NAMES[unimodal[1]] if strings else unimodal[1]
+      n += 1
+    if fc.num_buckets:
+      continue
+    if strings:
+      fc.monotonicity = _MONO_NAMES[fc.monotonicity]
+      fc.pwl_calibration_convexity = _CONV_NAMES[fc.pwl_calibration_convexity]
+      n += 2
+      for tc in fc.reflects_trust_in or []:
+        tc.direction = _DIR_NAMES[tc.direction]
+        n += 1
+  return n
+
+
+def _run_premade_synonym(case, out):
+  import tensorflow as tf
+  import tensorflow_lattice as tfl
+  desc = case["desc"]
+  kind = desc["kind"]
+  uni = case.get("unimodal")
+  out.label("premade-synonym:" + kind,
+            "premade-synonym:unimodality" if uni else
+            "premade-synonym:no-unimodality",
+            "premade-synonym:trust-direction" if desc.get("trust") else
+            "premade-synonym:no-trust")
+  sig = dict(layer="premade", model=kind, target="synonym")
+  cls = {"linear": tfl.premade.CalibratedLinear,
+         "lattice": tfl.premade.CalibratedLattice}.get(
+             kind, tfl.premade.CalibratedLatticeEnsemble)
+  x = M.base_points(desc, 6, case["aux"])
+  results = []
+  n = 0
+  out.checks += 1
+  for name, strings in (("integer", False), ("string", True)):
+    stage = "config"
+    try:
+      tf.random.set_seed(desc["seed"])
+      np.random.seed(desc["seed"])
+      cfg = M.model_config(copy.deepcopy(desc))
+      n = _spell_premade(cfg, uni, strings)
+      stage = "construct"
+      model = cls(cfg)
+      stage = "project"
+      for v in model.trainable_variables:
+        tgt = np.clip(S.materialize(case["weights"], (int(np.prod(v.shape)), 1)
+                                    ).reshape(tuple(v.shape)), -1e3, 1e3)
+        if "interpolation_logits" in v.name:
+          tgt = np.clip(tgt, -29, 29)
+        v.assign(tgt)
+      for v in model.trainable_variables:
+        if v.constraint is not None:
+          v.assign(v.constraint(v))
+      w = np.concatenate([v.numpy().reshape(-1)
+                          for v in model.trainable_variables] or [np.zeros(1)])
+      stage = "evaluate"
+      y = model(M.model_inputs(desc, x)).numpy().reshape(-1)
+      results.append({"weights": w, "outputs": y})
+    except Exception as e:  # pylint: disable=broad-except
+      out.nontrivial = True
+      out.violate("valid premade config (%s spelling) raised %s at %s: %s" % (
+          name, type(e).__name__, stage, str(e)[:300]), kind="not-total",
+                  exc=type(e).__name__, stage=stage, spelling=name, **sig)
+      return
+  out.nontrivial = n > 0
+  for name in ("weights", "outputs"):
+    a, b = results[0][name], results[1][name]
+    if a.shape != b.shape or not np.array_equal(a, b, equal_nan=True):
+      out.violate("integer and string spellings of a premade config give "
+                  "different %s (max diff %.3g)" % (
+                      name, float(np.nanmax(np.abs(a - b))) if a.shape ==
+                      b.shape else float("nan")),
+                  kind="synonym-differs", what=name, **sig)
+      return
+
+
 def run_case(case):
   out = Outcome()
   if case["target"] == "layer":
     _run_layer(case, out)
   elif case["target"] == "synonym":
     _run_synonym(case, out)
+  elif case["target"] == "premade_synonym":
+    _run_premade_synonym(case, out)
   else:
     _run_premade(case, out)
   return out
